@@ -46,8 +46,9 @@ def document_witness(chk):
     ok = r.get('same_across_orders') and r.get('same_twice') and r.get('refs_resolve') and 'per_version' in r and shared_ok
     if ok:
         for pv in r['per_version']:
-            want = sorted([[e['path'], e['method'], e['id']] for e in eps if e.get('visible', True) and inr(e['versions'], pv['version'])] + [['/zz-doc', 'GET', 'doc_endpoint']])
-            if sorted(pv['operations']) != want: ok = False
+            want = sorted([[e['path'], e['method'], e['id']] for e in eps if e.get('visible', True) and inr(e['versions'], pv['version'])] + [['/zz-doc', 'GET', 'doc_endpoint'], ['/zz-ws-old', 'GET', 'zz_ws_old']])
+            # the op also registers an unpublished channel (never listed) and a deprecated one (listed, and the only deprecated operation)
+            if sorted(pv['operations']) != want or pv.get('deprecated') != ['zz_ws_old']: ok = False
     if not ok:
         chk.counterexample(f'OpenAPI document witness: native {r}', case, True, role='document')
     chk.samples.append({'document_witness': {'orders': len(orders), 'versions': versions, 'native_summary': {k: r.get(k) for k in ('same_across_orders', 'same_twice', 'refs_resolve')}}})
@@ -113,7 +114,7 @@ def document_version_flow(chk):
                     nat = replay([case])[0]
                     ops = (nat.get('per_version') or [{}])[0].get('operations')
                     served = 'old' if ('-' in c[want.name]) else 'new'       # a pre-release of x.y.z precedes x.y.z
-                    good = ops is not None and sorted(o[2] for o in ops if o[2] != 'doc_endpoint') == [served]
+                    good = ops is not None and sorted(o[2] for o in ops if o[2] != 'doc_endpoint' and not o[2].startswith('zz_')) == [served]
                     chk.counterexample(f'the document is generated for {r["version"]} / info.version {info_v}, not for the requested version: document for {c[want.name]} of an API '
                                        f'with `until x.y.z` / `from x.y.z` lists {ops}', case, not good, role='document-version')
             if not n: raise Inconclusive(f'vacuity: OpenApiDefinition::{name} never reaches gen_openapi; {ex.unsupported_paths[-2:]}')
